@@ -15,6 +15,7 @@ import (
 
 	"github.com/tsawler/tabula/core"
 	"github.com/tsawler/tabula/reader"
+	"github.com/tsawler/tabula/resolver"
 	"pgregory.net/rapid"
 
 	"verif/harness/gen/pdfw"
@@ -43,7 +44,8 @@ type Cell struct {
 type Rev struct {
 	XRef  string `json:"xref"`
 	Flate bool   `json:"flate,omitempty"`
-	Cells []Cell `json:"cells"` // one per object number 1..N
+	Tight bool   `json:"tight,omitempty"` // object-stream header without a trailing blank (when the first member allows it)
+	Cells []Cell `json:"cells"`           // one per object number 1..N
 }
 
 type Op struct {
@@ -103,7 +105,7 @@ func build(c Case) built {
 	latest := map[int]*entry{}
 	var revs []pdfw.RawRevision
 	for k, rv := range c.Revs {
-		rr := pdfw.RawRevision{XRef: rv.XRef, Flate: rv.Flate, ObjStmNum: objstmNum(k), XRefNum: xrefNum(k)}
+		rr := pdfw.RawRevision{XRef: rv.XRef, Flate: rv.Flate, TightHead: rv.Tight, ObjStmNum: objstmNum(k), XRefNum: xrefNum(k)}
 		if rr.XRef != "stream" {
 			rr.XRef = "table"
 		}
@@ -140,6 +142,13 @@ func build(c Case) built {
 						e.refGen = gen[j-1]
 					}
 					o.Value = a
+				case "dictref":
+					d := pdfw.Dict{{K: "V", V: pdfw.Int(tag(k, j))}}
+					if j > 1 {
+						d = append(d, pdfw.KV{K: "P", V: pdfw.NRef{Num: j - 1, Gen: gen[j-1]}})
+						e.refGen = gen[j-1]
+					}
+					o.Value = d
 				case "stream", "streamref", "bigstreamref":
 					o.Value = pdfw.Dict{{K: "V", V: pdfw.Int(tag(k, j))}}
 					o.Data = streamData(k, j, cell.VKind == "bigstreamref")
@@ -214,6 +223,19 @@ func expectObject(b built, num int, got core.Object) error {
 		if !ok || d.Get("V") != core.Int(t) || d.Get("T") != core.String(fmt.Sprintf("r%dn%d", e.rev, num)) || len(d) != 2 {
 			return fmt.Errorf("object %d: got %v, want << /V %d /T (r%dn%d) >>", num, got, t, e.rev, num)
 		}
+	case "dictref":
+		d, ok := got.(core.Dict)
+		if !ok || d.Get("V") != core.Int(t) {
+			return fmt.Errorf("object %d: got %v, want a dictionary with /V %d", num, got, t)
+		}
+		if num > 1 {
+			ref, ok := d.Get("P").(core.IndirectRef)
+			if !ok || ref.Number != num-1 || len(d) != 2 {
+				return fmt.Errorf("object %d: got %v, want /P to be a reference to %d", num, got, num-1)
+			}
+		} else if len(d) != 1 {
+			return fmt.Errorf("object %d: got %v, want 1 entry", num, got)
+		}
 	case "arr":
 		a, ok := got.(core.Array)
 		if !ok || len(a) < 1 || a[0] != core.Int(t) {
@@ -253,7 +275,7 @@ func deepJudgeable(b built, num int, c Case) bool {
 		if e == nil || !e.live {
 			return false
 		}
-		if e.vkind != "arr" || j == 1 {
+		if (e.vkind != "arr" && e.vkind != "dictref") || j == 1 {
 			return true
 		}
 		prev := b.latest[j-1]
@@ -268,6 +290,20 @@ func checkDeep(b built, num int, got core.Object) error {
 	// a resolved array [tag, <resolved j-1>]
 	for j := num; j >= 1; j-- {
 		e := b.latest[j]
+		if e.vkind == "dictref" {
+			d, ok := got.(core.Dict)
+			if !ok || d.Get("V") != core.Int(tag(e.rev, j)) {
+				return fmt.Errorf("ResolveDeep: at object %d got %v, want a dictionary with /V %d", j, got, tag(e.rev, j))
+			}
+			if j == 1 {
+				return nil
+			}
+			if _, still := d.Get("P").(core.IndirectRef); still || d.Get("P") == nil {
+				return fmt.Errorf("ResolveDeep: at object %d the reference /P to %d was not resolved (%v)", j, j-1, d.Get("P"))
+			}
+			got = d.Get("P")
+			continue
+		}
 		if e.vkind != "arr" {
 			return expectObject(b, j, got)
 		}
@@ -298,6 +334,9 @@ func runProgram(b built, c Case, path string, prog []Op, label string) error {
 		return fmt.Errorf("reader.Open failed on a well-formed file: %v", err)
 	}
 	defer r.Close()
+	// one resolver.ObjectResolver for the whole program, never Reset: "the same objects [can] be resolved in
+	// different top-level calls" (resolver.go). Its depth limit is just enough for the longest chain of the case.
+	res := resolver.NewResolver(r, resolver.WithMaxDepth(2*c.N+3))
 	for i, op := range prog {
 		e := b.latest[op.Num]
 		live := e != nil && e.live
@@ -334,6 +373,17 @@ func runProgram(b built, c Case, path string, prog []Op, label string) error {
 			got, err := r.ResolveDeep(core.IndirectRef{Number: op.Num, Generation: e.gen})
 			if err != nil {
 				return fmt.Errorf("%s: ResolveDeep failed: %v", where, err)
+			}
+			if err := checkDeep(b, op.Num, got); err != nil {
+				return fmt.Errorf("%s: %v", where, err)
+			}
+		case "rdeep":
+			got, err := res.ResolveDeep(core.IndirectRef{Number: op.Num, Generation: genOf(e)})
+			if !live || e.fixed != "" || !deepJudgeable(b, op.Num, c) {
+				continue // not judged (a chain through a deleted object fails or not), but it ran on the shared resolver
+			}
+			if err != nil {
+				return fmt.Errorf("%s: ResolveDeep on a resolver.ObjectResolver that served earlier lookups failed: %v", where, err)
 			}
 			if err := checkDeep(b, op.Num, got); err != nil {
 				return fmt.Errorf("%s: %v", where, err)
@@ -395,14 +445,14 @@ func checkCase(c Case) error {
 
 // ---- generator ----------------------------------------------------------------
 
-var vkinds = []string{"int", "dict", "arr", "stream", "streamref", "bigstreamref"}
+var vkinds = []string{"int", "dict", "arr", "dictref", "stream", "streamref", "bigstreamref"}
 
 func genCase(t *rapid.T) Case {
 	c := Case{N: rapid.IntRange(1, 8).Draw(t, "n")}
 	r := rapid.IntRange(1, 5).Draw(t, "r")
 	c.EOL = rapid.SampledFrom([]string{"\n", "\n", "\r\n", "\r"}).Draw(t, "eol")
 	for k := 0; k < r; k++ {
-		rv := Rev{XRef: rapid.SampledFrom([]string{"table", "stream"}).Draw(t, "xref"), Flate: rapid.Bool().Draw(t, "flate")}
+		rv := Rev{XRef: rapid.SampledFrom([]string{"table", "stream"}).Draw(t, "xref"), Flate: rapid.Bool().Draw(t, "flate"), Tight: rapid.Bool().Draw(t, "tightHead")}
 		for j := 0; j < c.N; j++ {
 			cell := Cell{Kind: rapid.SampledFrom([]string{"absent", "def", "def", "free"}).Draw(t, "cell")}
 			if cell.Kind == "def" {
@@ -416,7 +466,7 @@ func genCase(t *rapid.T) Case {
 	size := c.N + 3 + r*c.N + 2*r
 	np := rapid.IntRange(1, 14).Draw(t, "programLen")
 	for i := 0; i < np; i++ {
-		kind := rapid.SampledFrom([]string{"get", "get", "get", "resolve", "deep", "clear", "xref"}).Draw(t, "op")
+		kind := rapid.SampledFrom([]string{"get", "get", "get", "resolve", "deep", "rdeep", "rdeep", "clear", "xref"}).Draw(t, "op")
 		num := rapid.IntRange(0, c.N+2).Draw(t, "num")
 		if rapid.IntRange(0, 5).Draw(t, "far") == 0 {
 			num = rapid.IntRange(0, size+2).Draw(t, "numFar")
@@ -504,7 +554,7 @@ func TestExhaustiveSmall(t *testing.T) {
 			c := Case{N: n}
 			x := h
 			for k := 0; k < r; k++ {
-				rv := Rev{XRef: "table", Flate: (h+k)%2 == 0}
+				rv := Rev{XRef: "table", Flate: (h+k)%2 == 0, Tight: (h/3+k)%2 == 0}
 				if xk>>uint(k)&1 == 1 {
 					rv.XRef = "stream"
 				}
@@ -520,7 +570,7 @@ func TestExhaustiveSmall(t *testing.T) {
 				c.Revs = append(c.Revs, rv)
 			}
 			for num := 0; num <= n+3; num++ {
-				c.Program = append(c.Program, Op{"get", num}, Op{"deep", num}, Op{"resolve", num})
+				c.Program = append(c.Program, Op{"get", num}, Op{"deep", num}, Op{"resolve", num}, Op{"rdeep", num})
 			}
 			if !vr.One(t, "history", c, meta(c), checkCase) {
 				return
@@ -528,6 +578,41 @@ func TestExhaustiveSmall(t *testing.T) {
 		}
 	}
 	vr.Exhaustive(fmt.Sprintf("all histories over n=%d object numbers x r=%d revisions x 2^%d xref kinds", n, r, r))
+	// compact object streams: one or two revisions with a cross-reference stream, 1-4 members that are all short
+	// (one-digit numbers and offsets), every assignment of {array, integer} to the members, header tight or not
+	cnt := 0
+	for m := 1; m <= 4; m++ {
+		for kinds := 0; kinds < 1<<m; kinds++ {
+			for _, tight := range []bool{true, false} {
+				for _, flate := range []bool{true, false} {
+					for revs := 1; revs <= 2; revs++ {
+						cnt++
+						c := Case{N: m}
+						for k := 0; k < revs; k++ {
+							rv := Rev{XRef: "stream", Flate: flate, Tight: tight}
+							for j := 0; j < m; j++ {
+								vk := "int"
+								if kinds>>uint(j)&1 == 1 {
+									vk = "arr"
+								}
+								rv.Cells = append(rv.Cells, Cell{Kind: "def", VKind: vk, InObjStm: true})
+							}
+							c.Revs = append(c.Revs, rv)
+						}
+						for num := 0; num <= m+3; num++ {
+							c.Program = append(c.Program, Op{"get", num}, Op{"deep", num})
+						}
+						mt := meta(c)
+						mt.Labels = append(mt.Labels, "compact-object-stream")
+						if !vr.One(t, "history", c, mt, checkCase) {
+							return
+						}
+					}
+				}
+			}
+		}
+	}
+	vr.Exhaustive(fmt.Sprintf("compact object streams (1-4 short members, tight/loose header): %d files", cnt))
 }
 
 var _ = strings.Join
